@@ -370,21 +370,21 @@ def plan(ctx):
     P = []
     # planar
     P += [('planar', (2, 2), None, 8 if q else 18, 4 if q else 18)]
-    P += [('planar', s, None if not q else 48, 2 if q else 4, 3 if q else 6) for s in [(2, 3), (3, 2)]]
-    P += [('planar', s, 24 if q else 350, 2, 3 if q else 6) for s in [(2, 4), (4, 2)]]
-    P += [('planar', (3, 3), 40 if q else 800, 2 if q else 1, 3 if q else 2)]
-    P += [('planar', s, 6 if q else 60, 1, 3 if q else 6) for s in [(2, 5), (5, 2)]]
+    P += [('planar', s, None if not q else 24, 2 if q else 4, 3 if q else 6) for s in [(2, 3), (3, 2)]]
+    P += [('planar', s, 12 if q else 350, 2, 3 if q else 6) for s in [(2, 4), (4, 2)]]
+    P += [('planar', (3, 3), 16 if q else 800, 2 if q else 1, 3 if q else 2)]
+    P += [('planar', s, 3 if q else 60, 1, 3 if q else 6) for s in [(2, 5), (5, 2)]]
     if not q:
         P += [('planar', s, 4, 1, 6) for s in [(3, 4), (4, 3), (2, 6), (6, 2)]]
     # rotated planar
-    P += [('rotatedplanar', (3, 3), 64 if q else None, 2 if q else 4, 3 if q else 6)]
-    P += [('rotatedplanar', s, 16 if q else 300, 2 if q else 1, 3 if q else 6) for s in [(3, 4), (4, 3)]]
+    P += [('rotatedplanar', (3, 3), 32 if q else None, 2 if q else 4, 3 if q else 6)]
+    P += [('rotatedplanar', s, 8 if q else 300, 2 if q else 1, 3 if q else 6) for s in [(3, 4), (4, 3)]]
     P += [('rotatedplanar', s, 3 if q else 30, 1, 3 if q else 6) for s in [(3, 5), (5, 3)]]
     if not q:
         P += [('rotatedplanar', (4, 4), 8, 1, 6)]
         P += [('rotatedplanar', s, 4, 1, 6) for s in [(3, 6), (6, 3)]]
     # colour
-    P += [('color666', (3,), None, 3 if q else 20, 1)]
+    P += [('color666', (3,), None, 2 if q else 20, 1)]
     if not q:
         P += [('color666', (5,), 4, 1, 1)]
     return P
@@ -509,7 +509,10 @@ def run(ctx):
     exhaustive_codes = []
     raw = raw_model_dists()
     n_cases = 0
+    import time as _time
+    T = ctx.extra.setdefault('part_seconds', {})
     for fam, size, n_syn, n_dist, n_cfg in plan(ctx):
+        _t0 = _time.time()
         code = make_code(fam, size)
         n = code.n_k_d[0]
         r = len(code.stabilizers)
@@ -545,13 +548,18 @@ def run(ctx):
                 ctx.count('code', label); ctx.count('dist_kind', kind)
                 n_cases += 1
         ctx.flush()
+        T['main:' + label] = round(_time.time() - _t0, 1)
+        _t0 = _time.time()
         special_cases(ctx, fam, size, code, label)
-    y_cases(ctx)
-    tn_cases(ctx)
+        ctx.flush()
+        T['special:' + label] = round(_time.time() - _t0, 1)
+    _t0 = _time.time(); y_cases(ctx); ctx.flush(); T['y_cases'] = round(_time.time() - _t0, 1)
+    _t0 = _time.time(); tn_cases(ctx); ctx.flush(); T['planar_tn'] = round(_time.time() - _t0, 1)
     ctx.extra['exhaustive_codes'] = exhaustive_codes
     ctx.extra['worst_relative_deviation'] = dict(WORST)
     if getattr(ctx, 'nolean', False):
         print('[dev] worst relative deviation', WORST, 'real decodes', ctx.extra.get('real_decodes'))
+        print('[dev] part seconds', T)
         print('[dev] specials', dict(ctx.hist['special_syndrome']), dict(ctx.hist['zero_syndrome_argmax']))
     ctx.exhaustive = False
     ctx.explored = {
@@ -574,9 +582,14 @@ def run(ctx):
     for name in NETWORK_HELPERS:
         mod = importlib.import_module('qv.' + name)
         before = ctx.evaluations
+        _t0 = _time.time()
         mod.cases(ctx)
+        ctx.flush()
+        T[name] = round(_time.time() - _t0, 1)
         ctx.explored[name + '_network_tie'] = {'evaluations': ctx.evaluations - before, 'exhaustive': False,
                                                'rule': (mod.__doc__ or '').strip().split('\n')[0][:300]}
+    if getattr(ctx, 'nolean', False):
+        print('[dev] part seconds (all)', T)
     return ctx.finish(RULE, search=search, explanation=(
         'spec theorems proved in Lean; the numerical agreement of the float/mpf contractions with the spec is bounded '
         'on the explored inputs only (see explored)'))
@@ -587,7 +600,7 @@ def run(ctx):
 def y_plan(ctx):
     q = ctx.quick()
     P = [((2, 2), None, 4 if q else 12), ((2, 3), None, 2 if q else 6), ((3, 2), None, 2 if q else 6),
-         ((3, 3), 60 if q else 400, 2), ((2, 4), 40 if q else None, 2), ((4, 2), 40 if q else None, 2),
+         ((3, 3), 30 if q else 400, 2), ((2, 4), 20 if q else None, 2), ((4, 2), 20 if q else None, 2),
          ((2, 5), 6 if q else 60, 1), ((5, 2), 6 if q else 60, 1)]
     if not q:
         P += [((3, 4), 4, 1), ((4, 3), 4, 1), ((2, 6), 4, 1)]
@@ -962,7 +975,7 @@ def evaluate_input(meta):
     return None
 
 
-NETWORK_HELPERS = ['c10_rplanar']
+NETWORK_HELPERS = ['c10_rplanar', 'c10_rmps', 'c10_color']
 
 
 def search(m):
@@ -972,7 +985,7 @@ def search(m):
     for name in NETWORK_HELPERS:
         mod = importlib.import_module('qv.' + name)
         if meta.get('family') == getattr(mod, 'FAMILY', None):
-            return mod.search(m)
+            return mod.search(m) if hasattr(mod, 'search') else mod.evaluate_input(meta)
     return evaluate_input(meta)
 
 
